@@ -1,6 +1,7 @@
 import RbV.Thm.GenSrcPoaAlign
 import RbV.Lemmas.PoaTopo
 import RbV.Lemmas.PoaHistory
+import RbV.Lemmas.PoaTablesOK
 /-!
 # `Poa::custom` as translated from the source text reports the score of the checked-`i32` mirror — tie-robust (hard)
 
@@ -49,15 +50,24 @@ theorem getS (tb : Rs.Poa.Traceback) (i j : Nat) (rr : Row) (br : BRow) (h : tb.
   refine ⟨_, get_eq tb i j rr _ h hr', ?_⟩
   exact brow_get_score _ _ hr.start hr.stop hr.empty hr.cells j
 
-theorem for3_foldS (sc : Sc) (tb : Rs.Poa.Traceback) (r v j b : Nat) (hj : 1 ≤ j) (rowsM : Nat → BRow) :
-    ∀ (prevs : List Nat) (acc accM resM : Cell), acc.score = accM.score →
+theorem cmax3_op (P : POp → Prop) (a x y : Cell) (ha : P a.op) (hx : P x.op) (hy : P y.op) : P (cmax a (cmax x y)).op := by
+  rcases cmax_op a (cmax x y) with h | h
+  · rw [h]; exact ha
+  · rcases cmax_op x y with h2 | h2
+    · rw [h, h2]; exact hx
+    · rw [h, h2]; exact hy
+
+theorem for3_foldS (sc : Sc) (tb : Rs.Poa.Traceback) (r v j b : Nat) (hj : 1 ≤ j) (rowsM : Nat → BRow) (P : POp → Prop) :
+    ∀ (prevs : List Nat) (acc accM resM : Cell), acc.score = accM.score → P acc.op →
+    (∀ p ∈ prevs, P (.m (some (p, v))) ∧ P (.d (some (p, v + 1)))) →
     (∀ p ∈ prevs, p + 1 < 2 ^ 64 ∧ ∀ c, ∃ x, Traceback_get tb (p + 1) c = ok x ∧ x.score = ((rowsM p).get c).score) →
     foldlC (predC sc v r b j) accM (prevs.map fun p => (p, rowsM p)) = some resM →
-    ∃ res, List.foldlM (custom_for3 sc.w sc.gap tb r (v + 1) b j) acc prevs = ok res ∧ res.score = resM.score
-  | [], acc, accM, resM, ha, _, h => by
+    ∃ res, List.foldlM (custom_for3 sc.w sc.gap tb r (v + 1) b j) acc prevs = ok res ∧ res.score = resM.score ∧ P res.op
+  | [], acc, accM, resM, ha, hPa, _, _, h => by
     simp only [List.map_nil, foldlC, Option.some.injEq] at h
-    exact ⟨acc, by simp, by rw [ha, h]⟩
-  | p :: prevs, acc, accM, resM, ha, hp, h => by
+    exact ⟨acc, by simp, by rw [ha, h], hPa⟩
+  | p :: prevs, acc, accM, resM, ha, hPa, hPp, hp, h => by
+    obtain ⟨hPm, hPd⟩ := hPp p (List.mem_cons_self ..)
     simp only [List.map_cons] at h
     obtain ⟨accM', h1, h2⟩ := foldlC_cons_some h
     obtain ⟨hp1, hp2⟩ := hp p (List.mem_cons_self ..)
@@ -76,18 +86,26 @@ theorem for3_foldS (sc : Sc) (tb : Rs.Poa.Traceback) (r v j b : Nat) (hj : 1 ≤
         simp only [Option.some.injEq] at h1
         rw [← ex1] at hm
         rw [← ex2] at hd
-        have e1 : ∃ acc', custom_for3 sc.w sc.gap tb r (v + 1) b j acc p = ok acc' ∧ acc'.score = accM'.score := by
+        have e1 : ∃ acc', custom_for3 sc.w sc.gap tb r (v + 1) b j acc p = ok acc' ∧ acc'.score = accM'.score ∧ P acc'.op := by
           unfold custom_for3
           simp only [Rs.add_ok hp1, Res.ok_bind, Rs.sub_ok hj, hx1, hx2, iadd32_some hm, iadd32_some hd,
             Rs.sub_ok (Nat.le_add_left 1 p), Rs.sub_ok (Nat.le_add_left 1 v), Nat.add_sub_cancel, Res.pure_eq_ok]
-          refine ⟨_, rfl, ?_⟩
-          rw [← h1]
-          simp only [cmax_score, ha]
-          try omega
-        obtain ⟨acc', e1, ea⟩ := e1
-        obtain ⟨res, e2, er⟩ := for3_foldS sc tb r v j b hj rowsM prevs acc' accM' resM ea
-          (fun q hq => hp q (List.mem_cons_of_mem _ hq)) h2
-        exact ⟨res, by simp only [List.foldlM_cons, e1, Res.ok_bind]; exact e2, er⟩
+          refine ⟨_, rfl, ?_, ?_⟩
+          · rw [← h1]
+            simp only [cmax_score, ha]
+            try omega
+          · exact cmax3_op P _ _ _ hPa (by first | exact hPm | exact hPd) (by first | exact hPd | exact hPm)
+        obtain ⟨acc', e1, ea, eP⟩ := e1
+        obtain ⟨res, e2, er, eo⟩ := for3_foldS sc tb r v j b hj rowsM P prevs acc' accM' resM ea eP
+          (fun q hq => hPp q (List.mem_cons_of_mem _ hq)) (fun q hq => hp q (List.mem_cons_of_mem _ hq)) h2
+        exact ⟨res, by simp only [List.foldlM_cons, e1, Res.ok_bind]; exact e2, er, eo⟩
+
+/-- operations a DP cell of the row of `v` (columns ≥ 1) may hold -/
+def CellOp (prevs : List Nat) (v : Nat) (op : POp) : Prop :=
+  op = .m none ∨ op = .x 0 ∨ op = .i (some v) ∨ ∃ p ∈ prevs, op = .m (some (p, v)) ∨ op = .d (some (p, v + 1))
+
+theorem cmax2_op (P : POp → Prop) (a b : Cell) (ha : P a.op) (hb : P b.op) : P (cmax a b).op := by
+  rcases cmax_op a b with h | h <;> rw [h] <;> assumption
 
 /-- one column of the row of node `v` in `Poa::custom`, on scores -/
 theorem for2_stepS (sc : Sc) (xp : Int) (query : List Nat) (r0 : BRow) (v r n : Nat) (prevs : List Nat) (rowsM : Nat → BRow)
@@ -100,7 +118,7 @@ theorem for2_stepS (sc : Sc) (xp : Int) (query : List Nat) (r0 : BRow) (v r n : 
     (hleft : (c0 :: done)[k]? = some left) (hlm : left.score = leftM.score) (hb : query.getD k 0 = b) (hpre : pre.length = k + 1)
     (hcand : candC sc (cmax mcell ⟨xp, .x 0⟩) query r0 v r (prevs.map fun p => (p, rowsM p)) (k + 1) = some candM)
     (hs : I32.add leftM.score sc.gap = some s) :
-    ∃ cell : Cell, cell.score = (cmax candM ⟨s, .i (some v)⟩).score ∧
+    ∃ cell : Cell, cell.score = (cmax candM ⟨s, .i (some v)⟩).score ∧ CellOp prevs v cell.op ∧
     custom_for2 sc.w sc.gap xp r (v + 1) prevs
         (pre ++ mc :: suf, { tb0 with matrix := M0.set (v + 1) (c0 :: done ++ mcell :: pad, 0, n + 1) }) (k, b) =
       ok (pre ++ (if mc.1 < (cmax candM ⟨s, .i (some v)⟩).score then ((cmax candM ⟨s, .i (some v)⟩).score, v + 1) else mc) :: suf,
@@ -175,16 +193,21 @@ theorem for2_stepS (sc : Sc) (xp : Int) (query : List Nat) (r0 : BRow) (v r n : 
       rw [ha] at hcand
       simp only [Option.some.injEq] at hcand
       subst hcand
-      refine ⟨cmax ⟨sv, .m none⟩ ⟨s, .i (some v)⟩, rfl, ?_⟩
+      refine ⟨cmax ⟨sv, .m none⟩ ⟨s, .i (some v)⟩, rfl,
+        cmax2_op (CellOp [] v) _ _ (Or.inl rfl) (Or.inr (Or.inr (Or.inl rfl))), ?_⟩
       simp only [Rs.add_ok hk, Res.ok_bind, List.isEmpty_nil, if_true, Rs.sub_ok (Nat.le_add_left 1 k), Nat.add_sub_cancel,
         hx0, iadd32_some ha, Res.pure_eq_ok, hgl, iadd32_some hs, Rs.sub_ok (Nat.le_add_left 1 v), hset]
       exact hfin _ _
   | cons p ps =>
     simp only [List.map_cons] at hcand
-    obtain ⟨candS, hf3, ecand⟩ := for3_foldS sc tb r v (k + 1) b (by omega) rowsM (p :: ps) (cmax mcell ⟨xp, .x 0⟩) _ candM rfl hgp
+    obtain ⟨candS, hf3, ecand, eop⟩ := for3_foldS sc tb r v (k + 1) b (by omega) rowsM (CellOp (p :: ps) v) (p :: ps)
+      (cmax mcell ⟨xp, .x 0⟩) _ candM rfl
+      (cmax2_op (CellOp (p :: ps) v) _ _ (Or.inl rfl) (Or.inr (Or.inl rfl)))
+      (fun q hq => ⟨Or.inr (Or.inr (Or.inr ⟨q, hq, Or.inl rfl⟩)), Or.inr (Or.inr (Or.inr ⟨q, hq, Or.inr rfl⟩))⟩) hgp
       (by simpa using hcand)
     simp only [mcell] at hf3
-    refine ⟨cmax candS ⟨s, .i (some v)⟩, by simp only [cmax_score, ecand], ?_⟩
+    refine ⟨cmax candS ⟨s, .i (some v)⟩, by simp only [cmax_score, ecand],
+      cmax2_op (CellOp (p :: ps) v) _ _ eop (Or.inr (Or.inr (Or.inl rfl))), ?_⟩
     have ecs : (cmax candS ⟨s, .i (some v)⟩).score = (cmax candM ⟨s, .i (some v)⟩).score := by simp only [cmax_score, ecand]
     simp only [Rs.add_ok hk, Res.ok_bind, List.isEmpty_cons, Bool.false_eq_true, if_false, minScore_eq, hf3,
       Rs.sub_ok (Nat.le_add_left 1 k), Nat.add_sub_cancel, Res.pure_eq_ok, hgl, iadd32_some hs,
@@ -202,7 +225,7 @@ theorem for2_foldS (sc : Sc) (xp : Int) (query : List Nat) (r0 : BRow) (v r n : 
     (c0 :: done)[k]? = some left → left.score = leftM.score → pre.length = k + 1 → suf.length = qs.length →
     colLoopC (candC sc (cmax mcell ⟨xp, .x 0⟩) query r0 v r (prevs.map fun p => (p, rowsM p))) sc.gap (.i (some v)) leftM
       (List.range' (k + 1) qs.length) = some csM →
-    ∃ cs : List Cell, scs cs = scs csM ∧
+    ∃ cs : List Cell, scs cs = scs csM ∧ (∀ c ∈ cs, CellOp prevs v c.op) ∧
     List.foldlM (custom_for2 sc.w sc.gap xp r (v + 1) prevs)
         (pre ++ suf, { tb0 with matrix := M0.set (v + 1) (c0 :: done ++ List.replicate (qs.length + 1) mcell, 0, n + 1) })
         (Rs.enumFrom k qs) =
@@ -212,7 +235,7 @@ theorem for2_foldS (sc : Sc) (xp : Int) (query : List Nat) (r0 : BRow) (v r n : 
     simp only [List.length_nil, List.range'_zero, colLoopC, Option.some.injEq] at hc
     subst hc
     cases suf with
-    | nil => exact ⟨[], rfl, by simp [Rs.enumFrom, colUpdate]⟩
+    | nil => exact ⟨[], rfl, by simp, by simp [Rs.enumFrom, colUpdate]⟩
     | cons a l => simp at hsuf
   | q :: qs, k, done, pre, suf, left, leftM, csM, hd, hkn, hq, hl, hlm, hpre, hsuf, hc => by
     cases suf with
@@ -238,9 +261,9 @@ theorem for2_foldS (sc : Sc) (xp : Int) (query : List Nat) (r0 : BRow) (v r n : 
             subst hc
             have hb : query.getD k 0 = q := by simpa using hq 0 (by simp)
             simp only [List.length_cons] at hkn hsuf
-            obtain ⟨cell, ecell, step⟩ := for2_stepS sc xp query r0 v r n prevs rowsM tb0 M0 c0 done (List.replicate (qs.length + 1) mcell) k q
+            obtain ⟨cell, ecell, eop, step⟩ := for2_stepS sc xp query r0 v r n prevs rowsM tb0 M0 c0 done (List.replicate (qs.length + 1) mcell) k q
               pre mc suf left leftM cand s hv (by omega) hlen hr0 hp hd (by omega) hl hlm hb hpre hcand hs
-            obtain ⟨cs, ecs, ih⟩ := for2_foldS sc xp query r0 v r n prevs rowsM tb0 M0 c0 hv hn hlen hr0 hp qs (k + 1)
+            obtain ⟨cs, ecs, eops, ih⟩ := for2_foldS sc xp query r0 v r n prevs rowsM tb0 M0 c0 hv hn hlen hr0 hp qs (k + 1)
               (done ++ [cell])
               (pre ++ [if mc.1 < (cmax cand ⟨s, .i (some v)⟩).score then ((cmax cand ⟨s, .i (some v)⟩).score, v + 1) else mc])
               suf cell (cmax cand ⟨s, .i (some v)⟩) rest (by simp [hd]) (by omega)
@@ -252,13 +275,38 @@ theorem for2_foldS (sc : Sc) (xp : Int) (query : List Nat) (r0 : BRow) (v r n : 
                 have := getElem?_append_len (c0 :: done) cell []
                 simpa [hd] using this)
               ecell (by simp [hpre]) (by omega) hrest
-            refine ⟨cell :: cs, by simp only [scs, List.map_cons, ecell] at ecs ⊢; rw [ecs], ?_⟩
+            refine ⟨cell :: cs, by simp only [scs, List.map_cons, ecell] at ecs ⊢; rw [ecs],
+              (fun c hc => by rcases List.mem_cons.mp hc with rfl | hc; exact eop; exact eops c hc), ?_⟩
             simp only [Rs.enumFrom, List.foldlM_cons, List.length_cons, List.replicate_succ (n := qs.length + 1)]
             rw [step]
             simp only [Res.ok_bind]
             simp only [List.append_assoc, List.singleton_append, List.cons_append, List.nil_append] at ih ⊢
             rw [ih]
             simp [colUpdate]
+
+/-- operations of the cells `off, off+1, …` of the Rust row of node `v` (band starting at column 0): locally fine (`RowOpX`), and
+nothing query-consuming in column 0 -/
+def CellOK (es : WEdges) (L v j : Nat) (op : POp) : Prop :=
+  RowOpX es L v j op ∧ (j = 0 → op = .d none ∨ ∃ r, op = .x r) ∧ ∀ c d, op = .y c d → c ≤ j
+
+def OffOK (es : WEdges) (L v off : Nat) (cs : List Cell) : Prop :=
+  ∀ k c, cs[k]? = some c → CellOK es L v (off + k) c.op
+
+theorem cellOp_noY (prevs : List Nat) (v : Nat) (op : POp) (h : CellOp prevs v op) (c d : Nat) : op ≠ .y c d := by
+  rcases h with h | h | h | ⟨p, _, h | h⟩ <;> rw [h] <;> intro hh <;> cases hh
+
+/-- the operations stored in the Rust matrix are local (tie-independent: whatever a `max` kept) -/
+structure OInv (es : WEdges) (L : Nat) (M : List Row) : Prop where
+  r0 : ∃ cs e, M[0]? = some (cs, 0, e) ∧ 0 < e ∧ e ≤ cs.length ∧
+    ∀ k c, cs[k]? = some c → (c.op = .m none ∧ k = 0) ∨ c.op = .i none ∨ ∃ d, c.op = .y 0 d
+  rows : ∀ v cs s e, M[v + 1]? = some (cs, s, e) → s = 0 ∧ OffOK es L v 0 cs
+
+theorem cellOp_rowOpX (es : WEdges) (L v k : Nat) (op : POp) (hk : 0 < k) (h : CellOp (inN es v) v op) : RowOpX es L v k op := by
+  rcases h with h | h | h | ⟨p, hp, h⟩
+  · exact Or.inl h
+  · exact Or.inr (Or.inl h)
+  · exact Or.inr (Or.inr (Or.inr (Or.inl ⟨hk, Or.inl h⟩)))
+  · exact Or.inr (Or.inr (Or.inr (Or.inl ⟨hk, Or.inr (Or.inr ⟨p, hp, h⟩)⟩)))
 
 /-- state of the main loop, on scores; `seen` = the nodes already visited: their rows are complete (`n + 2` cells, band `[0, n+1)`) -/
 structure MInvS (M : List Row) (r0 : BRow) (rows : Array BRow) (n : Nat) (todo seen : List Nat) : Prop where
@@ -282,10 +330,12 @@ theorem for1_stepS (sc : Sc) (xp : Int) (labels : List Nat) (es : WEdges) (query
     (hpreds : ∀ p ∈ inN es v, p < labels.length ∧ p ≠ v)
     (hmic : st.maxcol.length = query.length + 1)
     (hinv : MInvS tb.matrix r0 st.rows query.length (v :: todo) seen) (hnd : v ∉ todo) (hns : v ∉ seen)
+    (LL : Nat) (hO : OInv es LL tb.matrix)
     (h : cStepC sc xp labels es query r0 st v = some st') :
     ∃ tb', custom_for1 sc.w ⟨labels, es⟩ sc.gap xp query query.length (st.maxcol, tb) v = ok (st'.maxcol, tb') ∧
       tb'.rows = tb.rows ∧ tb'.cols = tb.cols ∧ tb'.last = v ∧ st'.rows.size = labels.length ∧
-      st'.maxcol.length = query.length + 1 ∧ MInvS tb'.matrix r0 st'.rows query.length todo (v :: seen) := by
+      st'.maxcol.length = query.length + 1 ∧ MInvS tb'.matrix r0 st'.rows query.length todo (v :: seen) ∧
+      OInv es LL tb'.matrix := by
   unfold cStepC at h
   simp only at h
   cases hrow : cNodeRowC sc xp query r0 v (labels.getD v 0)
@@ -330,7 +380,7 @@ theorem for1_stepS (sc : Sc) (xp : Int) (labels : List Nat) (es : WEdges) (query
               cases hg : I32.mul sc.gap (I32.ofUsize (v + 1)) with
               | none => rw [hg] at hc0; cases hc0
               | some g => rw [hg] at hc0; simpa using hc0)
-          obtain ⟨cs, ecs, hfold⟩ := for2_foldS sc xp query r0 v (labels.getD v 0) query.length (inN es v)
+          obtain ⟨cs, ecs, ecops, hfold⟩ := for2_foldS sc xp query r0 v (labels.getD v 0) query.length (inN es v)
             (fun p => st.rows.getD p (emptyRow query.length)) { tb with last := v } tb.matrix c0 (by omega) hn hlen hinv.r0
             (fun p hp => by
               obtain ⟨h1, h2⟩ := hpreds p hp
@@ -340,7 +390,7 @@ theorem for1_stepS (sc : Sc) (xp : Int) (labels : List Nat) (es : WEdges) (query
             have : (scs cs).length = (scs cells).length := by rw [ecs]
             simpa [scs, hclen] using this
           refine ⟨{ tb with last := v, matrix := tb.matrix.set (v + 1) (c0 :: cs ++ [mcell], 0, query.length + 1) }, ?_, rfl, rfl, rfl,
-            by simp [hsz], by simp [hmc, colUpdate_length, hrest], ?_⟩
+            by simp [hsz], by simp [hmc, colUpdate_length, hrest], ?_, ?_⟩
           · unfold custom_for1
             have hw : Rs.Poa.nodeWeight ⟨labels, es⟩ v = ok (labels.getD v 0) := by
               unfold Rs.Poa.nodeWeight
@@ -391,33 +441,85 @@ theorem for1_stepS (sc : Sc) (xp : Int) (labels : List Nat) (es : WEdges) (query
                 refine ⟨cs', by simp only; rw [getElem?_set_ne' _ _ _ _ (by omega)]; exact h1, h2, ?_⟩
                 rw [hold u huv]; exact h3
 
+          · -- the operations of the new row are local
+            have hc0op : c0.op = .d none ∨ c0.op = .x 0 := by
+              unfold edgeCellC at hc0
+              cases hg : I32.mul sc.gap (I32.ofUsize (v + 1)) with
+              | none => rw [hg] at hc0; cases hc0
+              | some gg =>
+                rw [hg] at hc0
+                simp only [Option.some.injEq] at hc0
+                rw [← hc0]; exact cmax_op _ _
+            refine ⟨?_, ?_⟩
+            · obtain ⟨cs0, e0, h1, h2, h3, h4⟩ := hO.r0
+              exact ⟨cs0, e0, by simp only; rw [getElem?_set_ne' _ _ _ _ (by omega)]; exact h1, h2, h3, h4⟩
+            · intro u cu su eu hu
+              simp only at hu
+              by_cases huv : u = v
+              · subst huv
+                rw [set_get_self hfresh] at hu
+                simp only [Option.some.injEq, Prod.mk.injEq] at hu
+                obtain ⟨rfl, rfl, rfl⟩ := hu
+                refine ⟨rfl, ?_⟩
+                intro k c hkc
+                simp only [Nat.zero_add]
+                cases k with
+                | zero =>
+                  simp only [List.cons_append, List.getElem?_cons_zero, Option.some.injEq] at hkc
+                  subst hkc
+                  refine ⟨?_, fun _ => ?_, fun c d hy => ?_⟩
+                  · rcases hc0op with h | h
+                    · exact Or.inr (Or.inr (Or.inl ⟨rfl, h⟩))
+                    · exact Or.inr (Or.inl h)
+                  · rcases hc0op with h | h
+                    · exact Or.inl h
+                    · exact Or.inr ⟨0, h⟩
+                  · rcases hc0op with h | h <;> rw [h] at hy <;> cases hy
+                | succ k =>
+                  simp only [List.cons_append, List.getElem?_cons_succ] at hkc
+                  rcases Nat.lt_or_ge k cs.length with hlt | hge
+                  · rw [List.getElem?_append_left hlt] at hkc
+                    have hco := ecops c (List.mem_of_getElem? hkc)
+                    exact ⟨cellOp_rowOpX es LL u (k + 1) c.op (by omega) hco, fun hh => by omega,
+                      fun c' d hy => absurd hy (cellOp_noY _ _ _ hco c' d)⟩
+                  · rw [List.getElem?_append_right hge] at hkc
+                    cases hk2 : k - cs.length with
+                    | zero =>
+                      rw [hk2] at hkc; simp only [List.getElem?_cons_zero, Option.some.injEq] at hkc; rw [← hkc]
+                      exact ⟨Or.inl rfl, fun hh => by omega, fun c' d hy => by cases hy⟩
+                    | succ m => rw [hk2] at hkc; simp at hkc
+              · rw [getElem?_set_ne' _ _ _ _ (by omega)] at hu
+                exact hO.rows u cu su eu hu
+
 theorem for1_foldS (sc : Sc) (xp : Int) (labels : List Nat) (es : WEdges) (query : List Nat) (r0 : BRow)
     (hm : labels.length + 1 < 2 ^ 64) (hn : query.length + 1 < 2 ^ 64)
     (hpreds : ∀ v, ∀ p ∈ inN es v, p < labels.length ∧ p ≠ v) :
     ∀ (order : List Nat) (st st' : CState) (tb : Rs.Poa.Traceback) (seen : List Nat), order.Nodup →
     (∀ v ∈ order, v < labels.length ∧ v ∉ seen) →
     st.rows.size = labels.length → st.maxcol.length = query.length + 1 → MInvS tb.matrix r0 st.rows query.length order seen →
+    ∀ (LL : Nat), OInv es LL tb.matrix →
     foldlC (cStepC sc xp labels es query r0) st order = some st' →
     ∃ tb', List.foldlM (custom_for1 sc.w ⟨labels, es⟩ sc.gap xp query query.length) (st.maxcol, tb) order = ok (st'.maxcol, tb') ∧
       tb'.rows = tb.rows ∧ tb'.cols = tb.cols ∧ tb'.last = order.getLastD tb.last ∧ st'.rows.size = labels.length ∧
-      st'.maxcol.length = query.length + 1 ∧ MInvS tb'.matrix r0 st'.rows query.length [] (order.reverse ++ seen)
-  | [], st, st', tb, seen, _, _, hsz, hmic, hinv, h => by
+      st'.maxcol.length = query.length + 1 ∧ MInvS tb'.matrix r0 st'.rows query.length [] (order.reverse ++ seen) ∧
+      OInv es LL tb'.matrix
+  | [], st, st', tb, seen, _, _, hsz, hmic, hinv, LL, hO, h => by
     simp only [foldlC, Option.some.injEq] at h
     subst h
-    exact ⟨tb, rfl, rfl, rfl, rfl, hsz, hmic, by simpa using hinv⟩
-  | v :: order, st, st', tb, seen, hnd, hlt, hsz, hmic, hinv, h => by
+    exact ⟨tb, rfl, rfl, rfl, rfl, hsz, hmic, by simpa using hinv, hO⟩
+  | v :: order, st, st', tb, seen, hnd, hlt, hsz, hmic, hinv, LL, hO, h => by
     obtain ⟨st1, h1, h2⟩ := foldlC_cons_some h
     rw [List.nodup_cons] at hnd
     obtain ⟨hv1, hv2⟩ := hlt v (List.mem_cons_self ..)
-    obtain ⟨tb1, e1, er, ec, el, hsz1, hmic1, hinv1⟩ := for1_stepS sc xp labels es query r0 st st1 v tb order seen hm hn hsz
-      hv1 (hpreds v) hmic hinv hnd.1 hv2 h1
-    obtain ⟨tb', e2, er2, ec2, el2, hsz2, hmic2, hinv2⟩ := for1_foldS sc xp labels es query r0 hm hn hpreds order st1 st' tb1 (v :: seen) hnd.2
+    obtain ⟨tb1, e1, er, ec, el, hsz1, hmic1, hinv1, hO1⟩ := for1_stepS sc xp labels es query r0 st st1 v tb order seen hm hn hsz
+      hv1 (hpreds v) hmic hinv hnd.1 hv2 LL hO h1
+    obtain ⟨tb', e2, er2, ec2, el2, hsz2, hmic2, hinv2, hO2⟩ := for1_foldS sc xp labels es query r0 hm hn hpreds order st1 st' tb1 (v :: seen) hnd.2
       (fun u hu => ⟨(hlt u (List.mem_cons_of_mem _ hu)).1, by
         intro hh
         rcases List.mem_cons.mp hh with rfl | hh
         · exact hnd.1 hu
-        · exact (hlt u (List.mem_cons_of_mem _ hu)).2 hh⟩) hsz1 hmic1 hinv1 h2
-    refine ⟨tb', ?_, by rw [er2, er], by rw [ec2, ec], ?_, hsz2, hmic2, by simpa using hinv2⟩
+        · exact (hlt u (List.mem_cons_of_mem _ hu)).2 hh⟩) hsz1 hmic1 hinv1 LL hO1 h2
+    refine ⟨tb', ?_, by rw [er2, er], by rw [ec2, ec], ?_, hsz2, hmic2, by simpa using hinv2, hO2⟩
     · simp only [List.foldlM_cons, e1, Res.ok_bind]; exact e2
     · rw [el2, el]; cases order <;> simp [List.getLastD]
 
@@ -431,16 +533,35 @@ theorem scs_eq_of (a b : List Cell) (hl : a.length = b.length)
     simp only [List.getD_eq_getElem?_getD, List.getElem?_eq_getElem h1, List.getElem?_eq_getElem h2, Option.getD_some] at this
     simpa [scs] using this
 
+theorem offOK_cons (es : WEdges) (L v off : Nat) (c : Cell) (cs : List Cell)
+    (h1 : CellOK es L v off c.op) (h2 : OffOK es L v (off + 1) cs) :
+    OffOK es L v off (c :: cs) := by
+  intro k x hk
+  cases k with
+  | zero => simp only [List.getElem?_cons_zero, Option.some.injEq] at hk; subst hk; simpa using h1
+  | succ k =>
+    simp only [List.getElem?_cons_succ] at hk
+    have := h2 k x hk
+    simpa [Nat.add_assoc, Nat.add_comm 1 k] using this
+
+theorem offOK_uncons (es : WEdges) (L v off : Nat) (c : Cell) (cs : List Cell) (h : OffOK es L v off (c :: cs)) :
+    CellOK es L v off c.op ∧ OffOK es L v (off + 1) cs := by
+  refine ⟨by simpa using h 0 c rfl, ?_⟩
+  intro k x hk
+  have := h (k + 1) x (by simpa using hk)
+  simpa [Nat.add_assoc, Nat.add_comm 1 k] using this
+
 /-- X suffix clipping (`custom_for4`) over the columns `col ..`, on scores -/
 theorem for4_foldS (w : Nat → Nat → Int) (xs : Int) (L n : Nat) (tb0 : Rs.Poa.Traceback) (M0 : List Row)
-    (hL : L + 1 < 2 ^ 64) (hlen : L + 1 < M0.length) (htl : tb0.last = L) (junk : List Cell) :
+    (hL : L + 1 < 2 ^ 64) (hlen : L + 1 < M0.length) (htl : tb0.last = L) (junk : List Cell) (es : WEdges) :
     ∀ (mcs : List (Int × Nat)) (col : Nat) (preS sufS cs : List Cell) (mir : Int × Nat) (rest : List Cell) (mir' : Int × Nat),
     preS.length = col → sufS.length = mcs.length → cs.length = mcs.length → col + mcs.length = n + 1 → scs sufS = scs cs →
+    OffOK es L L col sufS →
     xSuffixC xs (L + 1) col mcs cs mir = some (rest, mir') →
-    ∃ restS, scs restS = scs rest ∧ restS.length = sufS.length ∧
+    ∃ restS, scs restS = scs rest ∧ restS.length = sufS.length ∧ OffOK es L L col restS ∧
       List.foldlM (custom_for4 w xs) ({ tb0 with matrix := M0.set (L + 1) (preS ++ sufS ++ junk, 0, n + 1) }, mir) (Rs.enumFrom col mcs) =
         ok ({ tb0 with matrix := M0.set (L + 1) (preS ++ restS ++ junk, 0, n + 1) }, mir')
-  | [], col, preS, sufS, cs, mir, rest, mir', hpre, hsuf, hcs, hcol, hsc, h => by
+  | [], col, preS, sufS, cs, mir, rest, mir', hpre, hsuf, hcs, hcol, hsc, hoff, h => by
     cases sufS with
     | cons a l => simp at hsuf
     | nil =>
@@ -449,8 +570,8 @@ theorem for4_foldS (w : Nat → Nat → Int) (xs : Int) (L n : Nat) (tb0 : Rs.Po
       | nil =>
         simp only [xSuffixC, Option.some.injEq, Prod.mk.injEq] at h
         obtain ⟨rfl, rfl⟩ := h
-        exact ⟨[], rfl, rfl, by simp [Rs.enumFrom]⟩
-  | mc :: mcs, col, preS, sufS, cs, mir, rest, mir', hpre, hsuf, hcs, hcol, hsc, h => by
+        exact ⟨[], rfl, rfl, hoff, by simp [Rs.enumFrom]⟩
+  | mc :: mcs, col, preS, sufS, cs, mir, rest, mir', hpre, hsuf, hcs, hcol, hsc, hoff, h => by
     cases sufS with
     | nil => simp at hsuf
     | cons a sufS =>
@@ -460,6 +581,7 @@ theorem for4_foldS (w : Nat → Nat → Int) (xs : Int) (L n : Nat) (tb0 : Rs.Po
         simp only [List.length_cons] at hsuf hcs hcol
         simp only [scs, List.map_cons, List.cons.injEq] at hsc
         obtain ⟨hac, hsc'⟩ := hsc
+        obtain ⟨hoffa, hofft⟩ := offOK_uncons es L L col a sufS hoff
         generalize htb : ({ tb0 with matrix := M0.set (L + 1) (preS ++ a :: sufS ++ junk, 0, n + 1) } : Rs.Poa.Traceback) = tb
         have hmat : tb.matrix = M0.set (L + 1) (preS ++ a :: sufS ++ junk, 0, n + 1) := by rw [← htb]
         have hlast : tb.last = L := by rw [← htb]; exact htl
@@ -479,9 +601,10 @@ theorem for4_foldS (w : Nat → Nat → Int) (xs : Int) (L n : Nat) (tb0 : Rs.Po
             rw [hr] at h
             simp only [Option.some.injEq, Prod.mk.injEq] at h
             obtain ⟨rfl, rfl⟩ := h
-            obtain ⟨restS, e1, e2, ih⟩ := for4_foldS w xs L n tb0 M0 hL hlen htl junk mcs (col + 1) (preS ++ [a]) sufS cs mir rest1 mir1
-              (by simp [hpre]) (by omega) (by omega) (by omega) (by simpa [scs] using hsc') hr
-            refine ⟨a :: restS, by simp only [scs, List.map_cons, hac] at e1 ⊢; rw [e1], by simp [e2], ?_⟩
+            obtain ⟨restS, e1, e2, e3, ih⟩ := for4_foldS w xs L n tb0 M0 hL hlen htl junk es mcs (col + 1) (preS ++ [a]) sufS cs mir rest1 mir1
+              (by simp [hpre]) (by omega) (by omega) (by omega) (by simpa [scs] using hsc') hofft hr
+            refine ⟨a :: restS, by simp only [scs, List.map_cons, hac] at e1 ⊢; rw [e1], by simp [e2],
+              offOK_cons es L L col a restS hoffa e3, ?_⟩
             have e : custom_for4 w xs (tb, mir) (col, mc) = ok (tb, mir) := by
               unfold custom_for4
               obtain ⟨m1, m2⟩ := mc
@@ -506,9 +629,15 @@ theorem for4_foldS (w : Nat → Nat → Int) (xs : Int) (L n : Nat) (tb0 : Rs.Po
               simp only [Option.some.injEq, Prod.mk.injEq] at h
               obtain ⟨rfl, rfl⟩ := h
               have esc : (cmax a ⟨s, .x mc.2⟩).score = (cmax c ⟨s, .x mc.2⟩).score := by simp only [cmax_score, hac]
-              obtain ⟨restS, e1, e2, ih⟩ := for4_foldS w xs L n tb0 M0 hL hlen htl junk mcs (col + 1) (preS ++ [cmax a ⟨s, .x mc.2⟩]) sufS cs _ rest1 mir1
-                (by simp [hpre]) (by omega) (by omega) (by omega) (by simpa [scs] using hsc') hr
-              refine ⟨cmax a ⟨s, .x mc.2⟩ :: restS, by simp only [scs, List.map_cons, esc] at e1 ⊢; rw [e1], by simp [e2], ?_⟩
+              obtain ⟨restS, e1, e2, e3, ih⟩ := for4_foldS w xs L n tb0 M0 hL hlen htl junk es mcs (col + 1) (preS ++ [cmax a ⟨s, .x mc.2⟩]) sufS cs _ rest1 mir1
+                (by simp [hpre]) (by omega) (by omega) (by omega) (by simpa [scs] using hsc') hofft hr
+              have hnew : CellOK es L L col (cmax a ⟨s, .x mc.2⟩).op := by
+                rcases cmax_op a ⟨s, .x mc.2⟩ with hh | hh
+                · rw [hh]; exact hoffa
+                · rw [hh]; exact ⟨Or.inr (Or.inr (Or.inr (Or.inr ⟨rfl, Or.inl ⟨mc.2, rfl⟩⟩))), fun _ => Or.inr ⟨mc.2, rfl⟩,
+                    fun c d hy => by cases hy⟩
+              refine ⟨cmax a ⟨s, .x mc.2⟩ :: restS, by simp only [scs, List.map_cons, esc] at e1 ⊢; rw [e1], by simp [e2],
+                offOK_cons es L L col _ restS hnew e3, ?_⟩
               have hsetl : (preS ++ a :: sufS ++ junk).set col (cmax a ⟨s, .x mc.2⟩) = preS ++ cmax a ⟨s, .x mc.2⟩ :: sufS ++ junk := by
                 rw [← hpre]
                 simp only [List.append_assoc, List.cons_append]
@@ -549,6 +678,120 @@ theorem brow_get_inband (br : BRow) (j : Nat) (h0 : br.start = 0) (h1 : j < br.s
     | cons a l => simp [h0, h1]
   rw [if_pos this, h0, Nat.sub_zero]
 
+theorem offOK_append (es : WEdges) (L v off : Nat) (a b : List Cell) (ha : OffOK es L v off a)
+    (hb : OffOK es L v (off + a.length) b) : OffOK es L v off (a ++ b) := by
+  intro k c hk
+  rcases Nat.lt_or_ge k a.length with h | h
+  · rw [List.getElem?_append_left h] at hk; exact ha k c hk
+  · rw [List.getElem?_append_right h] at hk
+    have := hb (k - a.length) c hk
+    have e : off + a.length + (k - a.length) = off + k := by omega
+    rw [e] at this; exact this
+
+theorem offOK_set (es : WEdges) (L v off : Nat) (l : List Cell) (k : Nat) (c : Cell) (hl : OffOK es L v off l)
+    (hc : CellOK es L v (off + k) c.op) : OffOK es L v off (l.set k c) := by
+  intro i x hi
+  by_cases hik : k = i
+  · subst hik
+    rcases Nat.lt_or_ge k l.length with h | h
+    · simp only [List.getElem?_set, h, if_true, Option.some.injEq] at hi; rw [← hi]; exact hc
+    · rw [List.getElem?_eq_none (by simpa using h)] at hi; cases hi
+  · simp only [List.getElem?_set, hik, if_false] at hi; exact hl i x hi
+
+theorem offOK_take (es : WEdges) (L v off m : Nat) (l : List Cell) (hl : OffOK es L v off l) : OffOK es L v off (l.take m) := by
+  intro k c hk
+  rw [List.getElem?_take] at hk
+  split at hk
+  · exact hl k c hk
+  · cases hk
+
+theorem offOK_drop (es : WEdges) (L v off m : Nat) (l : List Cell) (hl : OffOK es L v off l) : OffOK es L v (off + m) (l.drop m) := by
+  intro k c hk
+  rw [List.getElem?_drop] at hk
+  have := hl (m + k) c hk
+  rw [Nat.add_assoc]; exact this
+
+theorem xSuffixC_mir_le (xs : Int) (lastI N : Nat) : ∀ (mcs : List (Int × Nat)) (cs : List Cell) (col : Nat) (mir : Int × Nat)
+    (rest : List Cell) (mir' : Int × Nat), xSuffixC xs lastI col mcs cs mir = some (rest, mir') → mir.2 ≤ N →
+    col + mcs.length ≤ N + 1 → mir'.2 ≤ N
+  | [], cs, col, mir, rest, mir', h, hm, _ => by
+    simp only [xSuffixC, Option.some.injEq, Prod.mk.injEq] at h; rw [← h.2]; exact hm
+  | mc :: mcs, [], col, mir, rest, mir', h, hm, _ => by
+    simp only [xSuffixC, Option.some.injEq, Prod.mk.injEq] at h; rw [← h.2]; exact hm
+  | mc :: mcs, c :: cs, col, mir, rest, mir', h, hm, hc => by
+    simp only [xSuffixC] at h
+    simp only [List.length_cons] at hc
+    split at h
+    · cases hr : xSuffixC xs lastI (col + 1) mcs cs mir with
+      | none => rw [hr] at h; cases h
+      | some pr =>
+        obtain ⟨r1, m1⟩ := pr
+        rw [hr] at h
+        simp only [Option.some.injEq, Prod.mk.injEq] at h
+        rw [← h.2]; exact xSuffixC_mir_le xs lastI N mcs cs _ _ r1 m1 hr hm (by omega)
+    · cases ha : I32.add mc.1 xs with
+      | none => rw [ha] at h; cases h
+      | some s =>
+        rw [ha] at h
+        simp only at h
+        cases hr : xSuffixC xs lastI (col + 1) mcs cs
+            (if mir.1 < (cmax c ⟨s, .x mc.2⟩).score then ((cmax c ⟨s, .x mc.2⟩).score, col) else mir) with
+        | none => rw [hr] at h; cases h
+        | some pr =>
+          obtain ⟨r1, m1⟩ := pr
+          rw [hr] at h
+          simp only [Option.some.injEq, Prod.mk.injEq] at h
+          rw [← h.2]
+          exact xSuffixC_mir_le xs lastI N mcs cs _ _ r1 m1 hr (by
+            split
+            · show col ≤ N; omega
+            · exact hm) (by omega)
+
+theorem mapC_row0Cell_ops (gap yclip : Int) : ∀ (l : List Nat) (cs : List Cell), mapC (row0Cell gap yclip) l = some cs →
+    ∀ c ∈ cs, c.op = .i none ∨ ∃ d, c.op = .y 0 d
+  | [], cs, h => by simp only [mapC, Option.some.injEq] at h; subst h; simp
+  | j :: l, cs, h => by
+    obtain ⟨b, bs, h1, h2, rfl⟩ := mapC_cons_some h
+    intro c hc
+    rcases List.mem_cons.mp hc with rfl | hc
+    · unfold row0Cell at h1
+      cases hg : I32.mul gap (I32.ofUsize j) with
+      | none => rw [hg] at h1; cases h1
+      | some g =>
+        rw [hg] at h1
+        simp only [Option.some.injEq] at h1
+        rw [← h1]
+        rcases cmax_op (⟨g, .i none⟩ : Cell) ⟨yclip, .y 0 j⟩ with e | e
+        · left; rw [e]
+        · right; exact ⟨j, by rw [e]⟩
+    · exact mapC_row0Cell_ops gap yclip l bs h2 c hc
+
+theorem bRow0C_ops {gap yclip : Int} {n : Nat} {r0 : BRow} (h : bRow0C gap yclip n = some r0) :
+    ∀ k c, r0.cells[k]? = some c → (c.op = .m none ∧ k = 0) ∨ c.op = .i none ∨ ∃ d, c.op = .y 0 d := by
+  have hb : bRow0C gap yclip n = (match I32.mul gap (I32.ofUsize 0) with
+      | none => none
+      | some _ => match mapC (row0Cell gap yclip) (List.range' 1 n) with
+        | none => none
+        | some cs => some { cells := ⟨0, .m none⟩ :: cs, start := 0, stop := n + 1 }) := rfl
+  rw [hb] at h
+  cases h0 : I32.mul gap (I32.ofUsize 0) with
+  | none => rw [h0] at h; cases h
+  | some g0 =>
+    rw [h0] at h
+    simp only at h
+    cases h1 : mapC (row0Cell gap yclip) (List.range' 1 n) with
+    | none => rw [h1] at h; cases h
+    | some cs =>
+      rw [h1] at h
+      simp only [Option.some.injEq] at h
+      subst h
+      intro k c hk
+      cases k with
+      | zero => simp only [List.getElem?_cons_zero, Option.some.injEq] at hk; left; rw [← hk]; exact ⟨rfl, rfl⟩
+      | succ k =>
+        simp only [List.getElem?_cons_succ] at hk
+        right; exact mapC_row0Cell_ops gap yclip _ cs h1 c (List.mem_of_getElem? hk)
+
 /-- **the translated `Poa::custom` reports the score of the checked-`i32` mirror** (decomposed form of `customTableC = some t`) -/
 theorem custom_score_core (sc : Sc) (xp xs yp ys : Int) (labels : List Nat) (es : WEdges) (query : List Nat) (r0 : BRow)
     (st : CState) (cells1 : List Cell) (mir : Int × Nat) (s : Int)
@@ -566,6 +809,7 @@ theorem custom_score_core (sc : Sc) (xp xs yp ys : Int) (labels : List Nat) (es 
     (hy : I32.add mir.1 ys = some s) :
     ∃ tb, custom sc.w ⟨labels, es⟩ sc.gap xp xs yp ys query = ok tb ∧ tb.last = (topo labels.length es).getLastD 0 ∧
       tb.cols = query.length ∧ tb.rows = labels.length ∧
+      (0 < query.length → OInv es ((topo labels.length es).getLastD 0) tb.matrix) ∧
       ∃ c, Traceback_get tb ((topo labels.length es).getLastD 0 + 1) query.length = ok c ∧
         c.score = (if mir.2 ≠ query.length then cmax (cells1.getD query.length mcell) ⟨s, .y mir.2 query.length⟩
           else cells1.getD query.length mcell).score := by
@@ -592,11 +836,20 @@ theorem custom_score_core (sc : Sc) (xp xs yp ys : Int) (labels : List Nat) (es 
     · intro v hv
       simp [List.getElem?_replicate, hlt v hv]
   have hq : query.length = n := hnq
-  obtain ⟨tb1, e1, er1, ec1, el1, hsz1, hmic1, hinv1⟩ := for1_foldS sc xp labels es query r0 hm (by omega) hpreds (topo labels.length es)
+  have hO0 : OInv es L ((r0.cells, 0, n + 1) :: List.replicate labels.length (([] : List Cell), 0, n + 1)) := by
+    refine ⟨⟨r0.cells, n + 1, rfl, by omega, by omega, bRow0C_ops h0⟩, ?_⟩
+    intro u cu su eu hu
+    simp only [List.getElem?_cons_succ, List.getElem?_replicate] at hu
+    split at hu
+    · simp only [Option.some.injEq, Prod.mk.injEq] at hu
+      obtain ⟨rfl, rfl, rfl⟩ := hu
+      exact ⟨rfl, fun k c hk => by simp at hk⟩
+    · cases hu
+  obtain ⟨tb1, e1, er1, ec1, el1, hsz1, hmic1, hinv1, hO1⟩ := for1_foldS sc xp labels es query r0 hm (by omega) hpreds (topo labels.length es)
     { rows := Array.replicate labels.length (emptyRow query.length), maxcol := List.replicate (query.length + 1) ((0 : Int), 0) } st
     { rows := labels.length, cols := n, last := 0,
       matrix := (r0.cells, 0, n + 1) :: List.replicate labels.length ([], 0, n + 1) } []
-    hnd (fun v hv => ⟨hlt v hv, by simp⟩) (by simp) (by simp [hq]) (by rw [hq]; exact hinv) (by rw [hq]; exact hst)
+    hnd (fun v hv => ⟨hlt v hv, by simp⟩) (by simp) (by simp [hq]) (by rw [hq]; exact hinv) L hO0 (by rw [hq]; exact hst)
   rw [hq] at e1 hmic1 hinv1
   simp only [List.append_nil] at hinv1
   have hLmem : L ∈ topo labels.length es := by rw [← hL]; exact getLastD_mem _ _ htopo
@@ -625,8 +878,9 @@ theorem custom_score_core (sc : Sc) (xp xs yp ys : Int) (labels : List Nat) (es 
       simp [List.getD, List.getElem?_take, hk']
   have htb1 : tb1 = { tb1 with matrix := tb1.matrix.set (L + 1) ([] ++ csL.take (n + 1) ++ csL.drop (n + 1), 0, n + 1) } := by
     rw [← hsplit, set_self_of_getElem? hrowL]
-  obtain ⟨restS, ers, erl, e4⟩ := for4_foldS sc.w xs L n tb1 tb1.matrix (by omega) hLlen htl1 (csL.drop (n + 1)) st.maxcol 0 []
-    (csL.take (n + 1)) _ (0, 0) cells1 mir rfl (by simp [hcsLlen, hmic1]) (by simp [hmic1]) (by simp [hmic1]) hscs hx
+  have hcsLok : OffOK es L L 0 csL := (hO1.rows L csL 0 (n + 1) hrowL).2
+  obtain ⟨restS, ers, erl, eoff, e4⟩ := for4_foldS sc.w xs L n tb1 tb1.matrix (by omega) hLlen htl1 (csL.drop (n + 1)) es st.maxcol 0 []
+    (csL.take (n + 1)) _ (0, 0) cells1 mir rfl (by simp [hcsLlen, hmic1]) (by simp [hmic1]) (by simp [hmic1]) hscs (offOK_take es L L 0 (n + 1) csL hcsLok) hx
   rw [← htb1] at e4
   simp only [List.nil_append] at e4
   have hrl : restS.length = n + 1 := by rw [erl]; simp [hcsLlen]
@@ -642,6 +896,23 @@ theorem custom_score_core (sc : Sc) (xp xs yp ys : Int) (labels : List Nat) (es 
   have hc41s : c41.score = (cells1.getD n mcell).score := by
     have := scs_getD ers n
     simpa [List.getD, hc41] using this
+  have hOset : ∀ (rowL : List Cell), OffOK es L L 0 rowL → OInv es L (tb1.matrix.set (L + 1) (rowL, 0, n + 1)) := by
+    intro rowL hrowLok
+    refine ⟨?_, ?_⟩
+    · obtain ⟨cs0, e0, h1, h2, h3, h4⟩ := hO1.r0
+      exact ⟨cs0, e0, by rw [getElem?_set_ne' _ _ _ _ (by omega)]; exact h1, h2, h3, h4⟩
+    · intro u cu su eu hu
+      by_cases huL : u = L
+      · subst huL
+        rw [set_get_self hrowL] at hu
+        simp only [Option.some.injEq, Prod.mk.injEq] at hu
+        obtain ⟨rfl, rfl, rfl⟩ := hu
+        exact ⟨rfl, hrowLok⟩
+      · rw [getElem?_set_ne' _ _ _ _ (by omega)] at hu
+        exact hO1.rows u cu su eu hu
+  have hdropok : OffOK es L L (0 + restS.length) (csL.drop (n + 1)) := by
+    rw [hrl]; exact offOK_drop es L L 0 (n + 1) csL hcsLok
+  have hmirle : mir.2 ≤ n := xSuffixC_mir_le xs (L + 1) n st.maxcol _ 0 (0, 0) cells1 mir hx (by simp) (by simp [hmic1])
   -- run the function
   have hassert : Rs.assert (decide (Rs.Poa.nodeCount (⟨labels, es⟩ : G) ≠ 0)) = ok () := by
     apply Rs.assert_ok
@@ -655,7 +926,8 @@ theorem custom_score_core (sc : Sc) (xp xs yp ys : Int) (labels : List Nat) (es 
   simp only [hassert, Res.ok_bind, Rs.Poa.nodeCount, hq, Rs.add_ok hn, hwc, hinit, hfold, enumerate_eq, e4, hlast2, Rs.add_ok (show L + 1 < 2 ^ 64 by omega),
     hg41, iadd32_some hy]
   by_cases hmn : mir.2 = n
-  · refine ⟨tb2, by simp [hmn, hne, Rs.assert], hlast2, by rw [← htb2, ec1], by rw [← htb2, er1], c41, hg41, ?_⟩
+  · refine ⟨tb2, by simp [hmn, hne, Rs.assert], hlast2, by rw [← htb2, ec1], by rw [← htb2, er1],
+      fun _ => by rw [hmat2]; exact hOset _ (offOK_append es L L 0 _ _ eoff hdropok), c41, hg41, ?_⟩
     simp [hmn, hc41s]
   · have hsetl : (restS ++ csL.drop (n + 1)).set n (cmax c41 ⟨s, .y mir.2 n⟩) =
         restS.set n (cmax c41 ⟨s, .y mir.2 n⟩) ++ csL.drop (n + 1) := by
@@ -665,7 +937,17 @@ theorem custom_score_core (sc : Sc) (xp xs yp ys : Int) (labels : List Nat) (es 
       rw [set_eq tb2 (L + 1) n _ _ 0 (n + 1) hrow2 (by omega) (by omega) (by simp; omega)]
       simp only [Nat.sub_zero, hsetl]
     refine ⟨{ tb2 with matrix := tb2.matrix.set (L + 1) (restS.set n (cmax c41 ⟨s, .y mir.2 n⟩) ++ csL.drop (n + 1), 0, n + 1) },
-      by simp [hmn, hset, hne, Rs.assert], hlast2, by rw [← htb2, ec1], by rw [← htb2, er1], cmax c41 ⟨s, .y mir.2 n⟩, ?_, ?_⟩
+      by simp [hmn, hset, hne, Rs.assert], hlast2, by rw [← htb2, ec1], by rw [← htb2, er1],
+      fun hn0 => by
+        simp only [hmat2, List.set_set]
+        refine hOset _ (offOK_append es L L 0 _ _ (offOK_set es L L 0 restS n _ eoff ?_) (by simpa using hdropok))
+        simp only [Nat.zero_add]
+        rcases cmax_op c41 ⟨s, .y mir.2 n⟩ with hh | hh
+        · rw [hh]; have := eoff n c41 hc41; simpa using this
+        · rw [hh]
+          exact ⟨Or.inr (Or.inr (Or.inr (Or.inr ⟨rfl, Or.inr ⟨by omega, mir.2, n, rfl⟩⟩))), fun h0 => by omega,
+            fun c d hy => by cases hy; exact hmirle⟩,
+      cmax c41 ⟨s, .y mir.2 n⟩, ?_, ?_⟩
     · rw [get_inband _ (L + 1) n (restS.set n (cmax c41 ⟨s, .y mir.2 n⟩) ++ csL.drop (n + 1)) 0 (n + 1)
         (by simp only; exact set_get_self hrow2) (by omega) (by omega) (by simp; omega)]
       simp [List.getD, List.getElem?_append_left, hrl]
@@ -738,6 +1020,7 @@ theorem custom_score_eq_model (sc : Sc) (xp xs yp ys : Int) (labels : List Nat) 
     (hg : GraphOK labels es) (hm : labels.length + 1 < 2 ^ 64) (hn : query.length + 1 < 2 ^ 64)
     (h : customTableC sc xp xs yp ys labels es query = some t) :
     ∃ tb, custom sc.w ⟨labels, es⟩ sc.gap xp xs yp ys query = ok tb ∧ tb.last = t.last ∧ tb.cols = t.n ∧ tb.rows = labels.length ∧
+      (0 < query.length → OInv es t.last tb.matrix) ∧
       ∃ c, Traceback_get tb (tb.last + 1) tb.cols = ok c ∧ c.score = t.score := by
   unfold customTableC at h
   simp only at h
@@ -765,7 +1048,7 @@ theorem custom_score_eq_model (sc : Sc) (xp xs yp ys : Int) (labels : List Nat) 
         | some s =>
           rw [hy] at h
           simp only [Option.some.injEq] at h
-          obtain ⟨tb, e, el, ec, er, c, hc, hcs⟩ := custom_score_core sc xp xs yp ys labels es query r0 st cells1 mir s hg.ne hm hn
+          obtain ⟨tb, e, el, ec, er, hO, c, hc, hcs⟩ := custom_score_core sc xp xs yp ys labels es query r0 st cells1 mir s hg.ne hm hn
             hg.preds hg.nodup hg.lt hg.topo_ne h0 hst hx hy
           have hsz : st.rows.size = labels.length := by
             have hfold : ∀ (order : List Nat) (a b : CState), foldlC (cStepC sc xp labels es query r0) a order = some b →
@@ -786,7 +1069,7 @@ theorem custom_score_eq_model (sc : Sc) (xp xs yp ys : Int) (labels : List Nat) 
             rw [hfold _ _ _ hst]; simp
           have hL : (topo labels.length es).getLastD 0 < labels.length := hg.lt _ (getLastD_mem _ _ hg.topo_ne)
           subst h
-          refine ⟨tb, e, el, ec, er, c, by rw [el, ec]; exact hc, ?_⟩
+          refine ⟨tb, e, el, ec, er, hO, c, by rw [el, ec]; exact hc, ?_⟩
           rw [hcs]
           simp only [BTable.score, BTable.cell, Nat.add_sub_cancel, Nat.add_one_ne_zero, if_false]
           have hget : (st.rows.setIfInBounds ((topo labels.length es).getLastD 0)
